@@ -90,7 +90,11 @@ def pretty(case):
     meas = ["m{}={!r}+/-{!r}".format(i, unbits(case["vals"][i]), unbits(case["errs"][i]))
             for i in range(case["n_meas"])]
     rho = ["rho(m{},m{})={!r}".format(i, j, unbits(r)) for i, j, r in case["rho"]]
-    return "{}  with {} {}".format(s(case["root"]), ", ".join(meas), ", ".join(rho))
+    forms = ["node {} ({}) applied as {} [element {} of {}]".format(
+        ni, nodes[int(ni)][1], " , ".join(rt["forms"]), rt["k"], rt["L"])
+        for ni, rt in sorted((case.get("routes") or {}).items(), key=lambda kv: int(kv[0]))]
+    return "{}  with {} {}{}".format(s(case["root"]), ", ".join(meas), ", ".join(rho),
+                                     ("  call forms: " + "; ".join(forms)) if forms else "")
 
 
 def failures_for(failures, c):
@@ -130,6 +134,13 @@ def run(ctx, what, n_cases, ref=False, gen_kwargs=None, cases=None):
             dist["overridden-result:" + how] += 1
         if c.get("template"):
             dist["template:" + c["template"]] += 1
+        for ni, rt in (c.get("routes") or {}).items():
+            n_ = c["nodes"][int(ni)]
+            kind_ = "operator" if n_[0] == "bin" and n_[1] != "log" else "function"
+            dist["call-form:{}:{}".format(kind_, "|".join(rt["forms"]))] += 1
+            if n_[0] == "bin" and rt["forms"][0] in ("list", "ndarray", "objlist"):
+                dist["call-form:reflected-array-array:" + n_[1]] += 1
+        dist["call-forms-through-arrays" if c.get("routes") else "call-forms-scalar-only"] += 1
         if c.get("equal_pairs"):
             dist["equal-pairs"] += 1
         if any(unbits(b) in exprgen.SPECIAL_VALUES for b in c["vals"][:c["n_meas"]]):
